@@ -61,17 +61,18 @@ C19Holds(us, anon, dn, pw) ==
 
 --------------------------------------------------------------------------
 (* C20: the store *)
-VARIABLES users, groups, allowAnon, reply
-dvars == <<users, groups, allowAnon, reply>>
+VARIABLES users, groups, allowAnon, reply,
+          tokenGroups      \* function SID -> sequence of entries (SetTokenGroups); <<>> = none configured
+dvars == <<users, groups, allowAnon, reply, tokenGroups>>
 
-DirInit(us, gs) == users = us /\ groups = gs /\ allowAnon = FALSE /\ reply = [op |-> "init", code |-> 0]
+DirInit(us, gs) == users = us /\ groups = gs /\ allowAnon = FALSE /\ tokenGroups = <<>> /\ reply = [op |-> "init", code |-> 0]
 
 \* handleAdd: exists check against users only; the new entry goes to users
 Add(dn, as) ==
   /\ IF Indices(users, dn) # {}
        THEN users' = users /\ reply' = [op |-> "add", code |-> EntryAlreadyExists]
        ELSE users' = Append(users, Entry(dn, SortAttrs(as))) /\ reply' = [op |-> "add", code |-> Success]
-  /\ UNCHANGED <<groups, allowAnon>>
+  /\ UNCHANGED <<groups, allowAnon, tokenGroups>>
 
 \* gldap hands modify values to the handler in their BER-wrapped form (what ConvertString unwraps) and
 \* the test directory stores them as they come: W(v) is the wrapped form of v
@@ -95,7 +96,7 @@ Modify(dn, chs) ==
      ELSE LET i == CHOOSE k \in I : TRUE IN
           /\ users' = [users EXCEPT ![i].attrs = ApplyChanges(@, chs)]
           /\ reply' = [op |-> "modify", code |-> Success]
-  /\ UNCHANGED <<groups, allowAnon>>
+  /\ UNCHANGED <<groups, allowAnon, tokenGroups>>
 
 \* handleDelete: users first, then groups
 Delete(dn) ==
@@ -103,12 +104,13 @@ Delete(dn) ==
   /\ IF U # {} THEN users' = RemoveAt(users, CHOOSE k \in U : TRUE) /\ groups' = groups /\ reply' = [op |-> "delete", code |-> Success]
      ELSE IF G # {} THEN groups' = RemoveAt(groups, CHOOSE k \in G : TRUE) /\ users' = users /\ reply' = [op |-> "delete", code |-> Success]
      ELSE UNCHANGED <<users, groups>> /\ reply' = [op |-> "delete", code |-> NoSuchObject]
-  /\ UNCHANGED allowAnon
+  /\ UNCHANGED <<allowAnon, tokenGroups>>
 
-SetUsers(us)  == users' = us /\ reply' = [op |-> "setusers", code |-> 0] /\ UNCHANGED <<groups, allowAnon>>
-SetGroups(gs) == groups' = gs /\ reply' = [op |-> "setgroups", code |-> 0] /\ UNCHANGED <<users, allowAnon>>
-SetAnon(b)    == allowAnon' = b /\ reply' = [op |-> "setanon", code |-> 0] /\ UNCHANGED <<users, groups>>
-Bind(dn, pw)  == reply' = [op |-> "bind", code |-> BindResult(users, allowAnon, dn, pw)] /\ UNCHANGED <<users, groups, allowAnon>>
+SetUsers(us)  == users' = us /\ reply' = [op |-> "setusers", code |-> 0] /\ UNCHANGED <<groups, allowAnon, tokenGroups>>
+SetGroups(gs) == groups' = gs /\ reply' = [op |-> "setgroups", code |-> 0] /\ UNCHANGED <<users, allowAnon, tokenGroups>>
+SetAnon(b)    == allowAnon' = b /\ reply' = [op |-> "setanon", code |-> 0] /\ UNCHANGED <<users, groups, tokenGroups>>
+SetTokenGroups(tg) == tokenGroups' = tg /\ reply' = [op |-> "settokengroups", code |-> 0] /\ UNCHANGED <<users, groups, allowAnon>>
+Bind(dn, pw)  == reply' = [op |-> "bind", code |-> BindResult(users, allowAnon, dn, pw)] /\ UNCHANGED <<users, groups, allowAnon, tokenGroups>>
 
 \* what a search for exactly this DN returns (users route / groups route), in slice order
 RECURSIVE Select(_, _)
@@ -117,6 +119,13 @@ Select(es, dn) == IF Len(es) = 0 THEN <<>>
 SearchUsers(dn)  == Select(users, dn)
 SearchGroups(dn) == Select(groups, dn)
 SearchCode(found) == IF Len(found) > 0 THEN Success ELSE NoSuchObject
+\* the route without a base DN (handleSearchGeneric), asked with an entry's DN as base: users first, then groups
+SearchGeneric(dn) == Select(users, dn) \o Select(groups, dn)
+\* ... and asked with base "<SID=sid>": the configured token groups of that SID - always success once any token groups
+\* are configured; without them the request falls through to DN matching (the harness's filter matches no DN)
+SearchSID(sid) == IF DOMAIN tokenGroups # {}
+                    THEN [found |-> IF sid \in DOMAIN tokenGroups THEN tokenGroups[sid] ELSE <<>>, code |-> Success]
+                    ELSE [found |-> <<>>, code |-> NoSuchObject]
 
 --------------------------------------------------------------------------
 (* C20 stated over the model (checked by TLC on the exhaustive configuration of DirectoryGen): *)
